@@ -20,21 +20,36 @@ Delims == WSChars \cup {40, 41, 34, 59}             \* ( ) " ;
 IsDigit(c) == c \in 48..57
 HexVal(c) == IF c \in 48..57 THEN c - 48 ELSE IF c \in 65..70 THEN c - 55 ELSE IF c \in 97..102 THEN c - 87 ELSE -1
 Lower(c) == IF c \in 65..90 THEN c + 32 ELSE c
-LowerSeq(s) == [j \in 1..Len(s) |-> Lower(s[j])]
-Sub(s, a, b) == [j \in 1..(b - a + 1) |-> s[a + j - 1]]       \* s[a..b], empty when b < a
+LowerSeq(s) == [j \in 1..Len(s) |-> Lower(s[j])] \o <<>>     \* (\o forces TLC to build the tuple: function constructors are lazy)
+Sub(s, a, b) == SubSeq(s, a, b)                               \* s[a..b], empty when b < a
 Str(s) == s                                                   \* (documentation only)
 
 \* ------------------------------------------------------------------ exact integers: decimal / hex text -> base 1024
-\* d is a little-endian digit sequence (possibly empty = 0); returns d * m + a, for m <= 16, a < 16
-RECURSIVE MulAddFrom(_, _, _, _)
-MulAddFrom(d, m, carry, j) ==
-  IF j > Len(d) THEN (IF carry = 0 THEN <<>> ELSE <<carry>>)
-  ELSE LET v == d[j] * m + carry IN <<v % 1024>> \o MulAddFrom(d, m, v \div 1024, j + 1)
-MulAdd(d, m, a) == MulAddFrom(d, m, a, 1)
-RECURSIVE DigitsFrom(_, _, _, _)
-DigitsFrom(s, base, j, acc) ==          \* Horner over s[j..]
-  IF j > Len(s) THEN acc ELSE DigitsFrom(s, base, j + 1, MulAdd(acc, base, HexVal(s[j])))
-Magnitude(s, base) == DigitsFrom(s, base, 1, <<>>)
+\* Horner's rule without a carry chain per step: the accumulator is kept in a REDUNDANT little-endian
+\* base-1024 form (digits may exceed 1023 by a bounded amount), so that one step  acc * m + a  (m <= 1000)
+\* is computed position by position; Normalize propagates the carries once at the end.
+\* Bound: digits <= B with B = 1023 + (B * 1000 + 999) / 1024, i.e. B < 44000 and B * 1000 < 2^31.
+Pass(d, m, a) ==
+  LET n == Len(d)
+      v(j) == IF j = 0 \/ j > n THEN 0 ELSE d[j] * m + (IF j = 1 THEN a ELSE 0)
+  IN IF n = 0 THEN (IF a = 0 THEN <<>> ELSE <<a>>)
+     ELSE [j \in 1..(IF v(n) \div 1024 > 0 THEN n + 1 ELSE n) |-> (v(j) % 1024) + (v(j - 1) \div 1024)] \o <<>>
+RECURSIVE NormFrom(_, _, _)
+NormFrom(d, j, carry) ==
+  IF j > Len(d) THEN (IF carry = 0 THEN <<>> ELSE <<carry % 1024>> \o NormFrom(d, j, carry \div 1024))
+  ELSE LET v == d[j] + carry IN <<v % 1024>> \o NormFrom(d, j + 1, v \div 1024)
+Normalize(d) == NormFrom(d, 1, 0)
+\* value of the digit characters s[a..b] (at most 3 of them) in the given base, as a TLC integer
+RECURSIVE ChunkVal(_, _, _, _)
+ChunkVal(s, base, a, b) == IF a > b THEN 0 ELSE ChunkVal(s, base, a, b - 1) * base + HexVal(s[b])
+Pow(base, k) == IF k = 0 THEN 1 ELSE IF k = 1 THEN base ELSE IF k = 2 THEN base * base ELSE base * base * base
+\* chunks of k = 3 digits for base 10, 2 for base 16 (m = 1000 / 256)
+RECURSIVE DigitsFrom(_, _, _, _, _)
+DigitsFrom(s, base, k, j, acc) ==
+  IF j > Len(s) THEN acc
+  ELSE LET e == IF j + k - 1 > Len(s) THEN Len(s) ELSE j + k - 1
+       IN DigitsFrom(s, base, k, e + 1, Pass(acc, Pow(base, e - j + 1), ChunkVal(s, base, j, e)))
+Magnitude(s, base) == Normalize(DigitsFrom(s, base, IF base = 10 THEN 3 ELSE 2, 1, <<>>))
 IntPayload(neg, mag) == IF mag = <<>> THEN <<0>> ELSE <<IF neg THEN 1 ELSE 0>> \o mag
 AllDigits(s, base) == Len(s) >= 1 /\ \A j \in 1..Len(s) : HexVal(s[j]) >= 0 /\ HexVal(s[j]) < base
 \* value of a small digit sequence as a TLC integer (for model checking only)
@@ -116,6 +131,7 @@ SmallHex(s) == SmallVal(Magnitude(s, 16), 1)           \* callers bound Len(s) <
 RECURSIVE Decode(_, _)
 Decode(s, i) ==
   IF i > Len(s) THEN <<>>
+  ELSE IF \A j \in i..Len(s) : s[j] # 92 THEN Sub(s, i, Len(s))             \* no escape left
   ELSE IF s[i] # 92 THEN <<s[i]>> \o Decode(s, i + 1)
   ELSE IF i = Len(s) THEN <<-1>>
   ELSE LET c == s[i + 1] IN
@@ -244,7 +260,7 @@ CloseFrame(ps) ==
   ELSE IF f.k = "bytes" THEN
      IF \A j \in 1..k : ps.nodes[f.items[j]].k = "int" /\ SmallIntVal(ps.nodes[f.items[j]]) \in 0..255
      THEN Deliver([ps EXCEPT !.stk = Pop(ps),
-                             !.nodes = [ps.nodes EXCEPT ![f.id] = Node("bytes", <<>>, [j \in 1..k |-> SmallIntVal(ps.nodes[f.items[j]])])]], f.id)
+                             !.nodes = [ps.nodes EXCEPT ![f.id] = Node("bytes", <<>>, [j \in 1..k |-> SmallIntVal(ps.nodes[f.items[j]])] \o <<>>)]], f.id)
      ELSE Fail(ps, "bad bytevector element")
   ELSE IF k = 0 THEN
      Deliver([ps EXCEPT !.stk = Pop(ps), !.nodes = [ps.nodes EXCEPT ![f.id] = Node("null", <<>>, <<>>)]], f.id)
@@ -284,7 +300,7 @@ Step(ps, tk) ==
      ELSE IF ~LabDefined(ps, n) THEN Fail(ps, "unknown label") ELSE Deliver(ps, LabNode(ps, n))
   ELSE \* atom, str, psym
      LET an == AtomNodes(tk) n0 == Len(ps.nodes) id == n0 + Len(an)
-         shifted == [j \in 1..Len(an) |-> [an[j] EXCEPT !.c = [m \in 1..Len(an[j].c) |-> n0 + an[j].c[m]]]]
+         shifted == [j \in 1..Len(an) |-> [an[j] EXCEPT !.c = [m \in 1..Len(an[j].c) |-> n0 + an[j].c[m]] \o <<>>]]
      IN IF an[Len(an)].k = "bad" THEN Fail(ps, "bad atom")
         ELSE Deliver([ps EXCEPT !.nodes = ps.nodes \o shifted, !.lab = Bind(ps, id), !.pend = <<>>], id)
 
